@@ -160,3 +160,17 @@ Theorem C02_tsv_rows :
             nth j (nth r rows []) d = nth r (nth j cols []) d).
 Proof. exact tsv_rows_spec. Qed.
 Print Assumptions C02_tsv_rows.
+
+(* Outside the two failure classes the export does return (no exception): all
+   requested features exist, every array has len(ds) events, and image-like
+   sources accept array indices unless they are integer-only sources of a
+   non-hdf5 dataset exported with filtering (the event-wise route). *)
+Theorem C02_export_total_partial :
+  forall (A : Type) (d z : A) (enum : Z -> A) (cfg : Z) (ds : dset A)
+         (filt : list bool) (filtered skip : bool) (req : list Z),
+    len filt = ds_len ds ->
+    export_guard A ds filtered req = true ->
+    exists calls cnt,
+      export A d z enum cfg ds filt filtered skip req = Ok (calls, cnt).
+Proof. exact export_total_partial. Qed.
+Print Assumptions C02_export_total_partial.
